@@ -556,6 +556,18 @@ def random_tree(rng, size):
         else:
             p = rng.choice(dirs) + ("f%d.itp" % i,)
         paths.append(p)
+    # in half of the trees: a file in a sub-directory includes a sibling by its bare name, and a file of that name
+    # (other content) also sits beside the main file
+    forced = None
+    if rng.random() < 0.5:
+        d = rng.choice(dirs[1:])
+        nm = rng.choice(names)
+        includer = d + ("inc.itp",)
+        paths.insert(1, includer)
+        for p in (d + (nm,), (nm,)):
+            if p not in paths:
+                paths.append(p)
+        forced = (includer, nm)
     molnames = ["A", "B", "C", "D", "E", "F", "G"]
     molsize = {m: rng.randint(1, 3) for m in molnames}
     files = {}
@@ -602,8 +614,12 @@ def random_tree(rng, size):
                     lines.append(L("else"))
                     lines += body()
                 lines.append(L("endif"))
+        if forced and path == forced[0]:
+            lines.insert(rng.randint(0, len(lines)), L("incl", p=[forced[1]]))
         files[path] = lines
     main = files[("main.top",)]
+    if forced:
+        main.append(L("incl", p=rel_path((), forced[0], rng)))
     main[:0] = [L("defaults", "", 1), L("atype", "P", 1)]
     # mostly molecule types the main file itself declares unconditionally (known without any oracle), sometimes any name
     own = [l["a"] for l in main if l["k"] == "mol"]
